@@ -187,10 +187,10 @@ func (s *sys) view(v int64) (get, wk map[string]string, err error) {
 
 // storeQuery reads through the `.store` ABCI query surface (QueryImmutable -> bptree.Store.Query "/key" ->
 // GetVersioned -> GetImmutable -> fast index).
-func (s *sys) storeQuery(v int64) (out map[string]string, err error) {
+func (s *sys) storeQuery(v int64, keys []string) (out map[string]string, err error) {
 	out = map[string]string{}
 	if rec := vk.Catch(func() {
-		for _, k := range alphabet {
+		for _, k := range keys {
 			res, e := s.ms.QueryImmutable(abci.RequestQuery{Path: "/main/key", Data: []byte(k), Height: v})
 			if e != nil {
 				err = e
@@ -294,7 +294,12 @@ func (s *sys) checkVersions(m *model, out *[]mismatch, stats *stats) {
 	for v := int64(1); v <= m.latest; v++ {
 		aget, _, aerr := ref.view(v)
 		fget, fwalk, ferr := s.view(v)
-		qget, qerr := s.storeQuery(v)
+		// every key at the latest version, one (rotating) key at older versions: each .store query builds a view of its own
+		qkeys := alphabet
+		if v != m.latest {
+			qkeys = alphabet[v%3 : v%3+1]
+		}
+		qget, qerr := s.storeQuery(v, qkeys)
 		stats.views++
 		if aerr != nil {
 			stats.versionsAbsent++
@@ -322,7 +327,7 @@ func (s *sys) checkVersions(m *model, out *[]mismatch, stats *stats) {
 			if fget[k] != expect(fwalk, k) {
 				*out = append(*out, mismatch{"stale-read:view-vs-walk", fmt.Sprintf("v%d Get(%s)=%q, leaf walk of the same view %q", v, k, fget[k], expect(fwalk, k))})
 			}
-			if qerr == nil && qget[k] != want {
+			if _, asked := qget[k]; qerr == nil && asked && qget[k] != want {
 				*out = append(*out, mismatch{"stale-read:store-query", fmt.Sprintf("v%d .store %s=%q, %q with the index off", v, k, qget[k], want)})
 			}
 			if want != expect(m.committed[v], k) {
